@@ -301,9 +301,10 @@ def addresses_absent(sim, req) -> bool:
         return False
 
 
-def req_event(path, leaf, executed, status, reason, pre, post, mask="na", action=False, exist=False, gone=False) -> Dict[str, Any]:
+def req_event(path, leaf, executed, status, reason, pre, post, mask="na", action=False, exist=False, gone=False, declared=True) -> Dict[str, Any]:
     return {
         "gone": bool(gone),
+        "declared": bool(declared),
         "ev": "Req",
         "path": [{"present": bool(p["present"]), "guard": bool(p["guard"])} for p in path],
         "leaf": bool(leaf),
